@@ -159,7 +159,7 @@ fn chop(s: &str) -> &str { let mut c = s.chars(); c.next_back(); c.as_str() }
 fn near_variants(st: &ST, r: &mut Rng) -> Vec<ST> {
     let ext = |x: &str| format!("{x}a");
     match st {
-        SimpleTerm::LiteralLanguage(l, tag) => { let t = tag.as_str(); let mut v = vec![lit_lang(l, &format!("{t}-GB")), lit_lang(&ext(l), t), lit_dt(l, &format!("{XSD}string")), lit_dt(l, "http://www.w3.org/1999/02/22-rdf-syntax-ns#langString")]; if let Some(k) = t.find('-') { v.push(lit_lang(l, &t[..k])); } v }
+        SimpleTerm::LiteralLanguage(l, tag) => { let t = tag.as_str(); let mut v = vec![lit_lang(l, &format!("{t}-GB")), lit_lang(&ext(l), t), lit_dt(l, &format!("{XSD}string"))]; /* (NOT an untagged literal typed rdf:langString: that term is ill-formed, and the property quantifies over well-formed terms) */ if let Some(k) = t.find('-') { v.push(lit_lang(l, &t[..k])); } v }
         SimpleTerm::LiteralDatatype(l, d) => vec![lit_dt(l, &ext(d.as_str())), lit_dt(&ext(l), d.as_str()), lit_lang(l, "en"), lit_dt(l, chop(d.as_str()))],
         SimpleTerm::Iri(i) => vec![iri(&ext(i.as_str())), iri(chop(i.as_str())), lit_dt(i.as_str(), &format!("{XSD}string")), lit_dt("", i.as_str())],
         SimpleTerm::BlankNode(b) => vec![bnode(&ext(b.as_str())), var(b.as_str()), iri(&format!("x:{}", b.as_str()))],
